@@ -653,3 +653,29 @@ def var_def_exprs(body, v, expand=True):
     if l is None:
         return []
     return [norm(body.def_expr(bi, si, expand)) for bi, si in body.defs.get(l, [])]
+
+
+RECV_NAMES = ("Receiver::recv", "Receiver::try_recv", "SelectedOperation::recv", "Receiver::recv_blocking", "Receiver::recv_timeout")
+
+
+def recv_sites(body):
+    """Channel receive sites: (bi, term, channel expr)."""
+    out = []
+    for bi, t in body.calls():
+        c = body.callee_of(t)
+        if not any(callee_matches(c, n) for n in RECV_NAMES):
+            continue
+        a = [norm(x) for x in body.call_args(t)]
+        if callee_matches(c, "SelectedOperation::recv"):
+            ch = a[1]
+            if ch[0] == "call" and ch[1].endswith("::unbind"):
+                ch = ch[2][0]
+            out.append((bi, t, norm(ch)))
+        else:
+            out.append((bi, t, a[0]))
+    return out
+
+
+def user_code(body):
+    """Is this body written in the repository (not a macro-internal closure of a dependency)?"""
+    return body.span["f"].startswith("src/")
